@@ -15,7 +15,7 @@ META = dict(
 
 def tasks(tier):
     from vf.core import Task
-    return [Task('props.C08:ob_memo', name='C08/memo-keys', timeout=120)] + [Task('props.wire:run', name='C08/wire.c08_window', fname='c08_window', timeout=300), Task('props.wire:run', name='C08/wire.c08_weights', fname='c08_weights', timeout=300), Task('props.wire:run', name='C08/wire.c08_project_guards', fname='c08_project_guards', timeout=300)] + bounded_tasks('C08', tier)
+    return [Task('props.C08:ob_memo', name='C08/memo-keys', timeout=120)] + [Task('props.wire:run', name='C08/wire.c08_window', fname='c08_window', timeout=300), Task('props.wire:run', name='C08/wire.c08_weights', fname='c08_weights', timeout=300), Task('props.wire:run', name='C08/wire.c08_project_guards', fname='c08_project_guards', timeout=300)] + [Task('props.wire:run', name='C08/wire.project_one_axis.%s.%d.%d' % ('_'.join(map(str, ns)), ax, n), fname='c08_project_one_axis', kwargs=dict(ns=list(ns), axis=ax, n=n), timeout=300) for ns, ax, n in (((3,), 0, 2), ((3, 2), 0, 1), ((2, 3), 1, 2), ((2, 2, 1), 1, 1), ((2,), 0, 3))] + bounded_tasks('C08', tier)
 
 
 def ob_memo():
